@@ -32,6 +32,9 @@ def ledger_monitor(ctx, tr, ix):
     fin_rate = am.get("financing_rate", 0)
     ghost = cfgk["accounts"]["stock"]           # total_cash + pending deposits
     qty = collections.Counter()
+    for item in ((cfgk.get("base_extra") or {}).get("init_positions") or "").split(","):
+        if item and item.split(":")[0] in ix.stock:
+            qty[item.split(":")[0]] += int(item.split(":")[1])           # configured starting holdings
     prev = {}
     replay = {"seed_note": "trading stream", "cfg": {k: v for k, v in cfgk.items() if k != "accounts"}, "accounts": cfgk["accounts"],
               "run_seed": getattr(tr, "run_seed", None), "run_index": getattr(tr, "run_index", None)}
@@ -184,7 +187,7 @@ def one_run(ctx, corrs, stock_only=False, dense=False, rs=None, k=None):
                      opts={"p_div": 0.8, "p_split": 0.5, "p_delist": 0.35} if dense else None)
     if not S["stocks"]:
         return
-    cfgk = trading.gen_config(rnd, S)
+    cfgk = trading.gen_config(rnd, S, {"p_init_pos": 0.2})
     tr = trading.run_trading(rnd, S, cfgk)
     tr.run_seed, tr.run_index = rs, k
     ctx.stats["runs"] += 1
